@@ -559,6 +559,29 @@ def m_list_pop(eng, s, l, args, kw):
     return [(SV(val), ok)]
 
 
+def m_list_remove(eng, s, l, args, kw):
+    """l.remove(x): deletes the FIRST element equal to x (by value for str/number, identity for objects), ValueError if none"""
+    h = s.heap
+    x = eng.as_val(s, args[0])
+    n = h.llen(l.ref)
+    old = h.lelems(l.ref)
+    i = z3.Int("rm_i")
+    ex = z3.Exists([i], z3.And(0 <= i, i < n, z3.Select(old, i) == x.t))
+    ok, bad = eng.branch(s, ex)
+    if bad is not None:
+        eng.raise_exc(bad, ValueError)
+    if ok is None:
+        return []
+    idx = fresh("rm_idx", smt.I)
+    ok.assume(0 <= idx, idx < n, z3.Select(old, idx) == x.t,
+              z3.ForAll([i], z3.Implies(z3.And(0 <= i, i < idx), z3.Select(old, i) != x.t), patterns=[z3.Select(old, i)]))
+    eng.check_write(ok, l.ref, "list")
+    arr = fresh("rm", smt.ArrIV)
+    ok.assume(z3.ForAll([i], z3.Select(arr, i) == z3.If(i < idx, z3.Select(old, i), z3.Select(old, i + 1)), patterns=[z3.Select(arr, i)]))
+    ok.heap = ok.heap.set_list(l.ref, n - 1, arr)
+    return [(sv_none(), ok)]
+
+
 def m_list_insert(eng, s, l, args, kw):
     h = s.heap
     n = h.llen(l.ref)
@@ -826,7 +849,7 @@ def _str_misc(name):
 
 METHODS = {
     ("list", "append"): m_list_append, ("list", "extend"): m_list_extend, ("list", "index"): m_list_index,
-    ("list", "pop"): m_list_pop, ("list", "insert"): m_list_insert, ("list", "count"): m_list_count,
+    ("list", "pop"): m_list_pop, ("list", "insert"): m_list_insert, ("list", "remove"): m_list_remove, ("list", "count"): m_list_count,
     ("dict", "get"): m_dict_get, ("dict", "items"): m_dict_items, ("dict", "keys"): m_dict_keys,
     ("dict", "values"): m_dict_values, ("dict", "update"): m_dict_update, ("dict", "pop"): m_dict_pop,
     ("set", "add"): m_set_add,
